@@ -193,4 +193,60 @@ def computeReprojectRoiE (src dst : Side) (crsEq : Bool) (projF projB : Proj) (n
   | .error e => .error e
   | .ok tr => planWithE src.shape dst.shape tr n scaleAt ttol stol padding align
 
+/-! ### a scale estimate that is not a number
+
+When one of the five stencil points of `get_scale_at_point` has no image (the transformer answers `inf`: the point is
+outside the other CRS's domain, e.g. on the far side of a full-disk view) `affine_from_pts` / `decompose_rws` produce
+NaN without raising, `min(nan, nan)` is NaN and `_pick_read_scale` fails its `assert scale > 0`.  On `/repo` HEAD that is
+the end of `compute_reproject_roi` (`AssertionError`, known finding `xcrs-scale-centre-off-domain-raises`); the repair on
+branch `fix2-C03` measures the scale at the image of the centre of `roi_src` instead.  `scaleFallback` says which of the
+two the model follows: it must be `true` once the repair is merged. -/
+
+def scaleFallback : Bool := true
+
+/-- outcome of `get_scale_at_point`: a scale, NaN (non-finite stencil image), or an exception -/
+inductive ScaleRes where
+  | ok (s : Rat × Rat)
+  | nan
+  | err (e : ErrKind)
+
+/-- `get_scale_at_point(pt, tr.back)` for a point transform that may answer with non-finite coordinates;
+`n` is the root for the fitted map as in `scaleAtPointE` -/
+def scaleAtPointX (back : PtTr) (pt : Rat × Rat) (n : Rat × Rat → Rat) : ScaleRes :=
+  let val : Rat × Rat → Option (Rat × Rat) := fun q => match back q with
+    | (.fin x, .fin y) => some (x, y)
+    | _ => none
+  if ((stencilPts pt 1).all fun q => (val q).isSome) then
+    match scaleAtPointE (fun q => (val q).getD (0, 0)) pt 1 (n pt) with
+    | .ok s => .ok s
+    | .error e => .err e
+  else .nan
+
+def reprojectNonlinearX (fb : Bool) (src dst : Shape) (back fwd : PtTr) (scaleAt : Rat × Rat → ScaleRes)
+    (padding align : Option Int) : Res Plan :=
+  let r := relativeRois src dst back fwd 5 (padOr1 padding) (normAlign align)
+  let finish : Rat × Rat → Res Plan := fun sc =>
+    let scale := min sc.1 sc.2
+    match pickReadScale scale with
+    | .error e => .error e
+    | .ok rs => .ok ⟨r.1, r.2, false, rs, scale, sc⟩
+  if ¬ ROI.isEmpty r.2 then
+    let c : Rat × Rat := (((r.2.2.start + r.2.2.stop : Int) : Rat) / 2, ((r.2.1.start + r.2.1.stop : Int) : Rat) / 2)
+    match scaleAt c with
+    | .ok sc => finish sc
+    | .err e => .error e
+    | .nan =>
+      if fb then
+        -- `(center_pt,) = tr([xy_(roi_center(roi_src)[::-1])])`, then the estimate again
+        let cs : Rat × Rat := (((r.1.2.start + r.1.2.stop : Int) : Rat) / 2, ((r.1.1.start + r.1.1.stop : Int) : Rat) / 2)
+        match fwd cs with
+        | (.fin x, .fin y) =>
+          match scaleAt (x, y) with
+          | .ok sc => finish sc
+          | .err e => .error e
+          | .nan => .error .assertion
+        | _ => .error .assertion
+      else .error .assertion        -- `assert scale > 0` on a NaN
+  else .ok ⟨r.1, r.2, false, 1, 0, (0, 0)⟩
+
 end OdcGeo.C03
